@@ -189,6 +189,33 @@ func tgGen(seed uint64, tier string) {
 		if r.Intn(5) == 0 {
 			files = append(files, tgFile{name: "notes.txt", content: "func testInNotes() bool {\nnot Go at all\n"})
 		}
+		// what editors, patch and merge tools leave next to a source file: names that CONTAIN ".go" without ending in it
+		if r.Intn(4) == 0 {
+			nm := proto.Pick(r, []string{"real.go.orig", "real.go.rej", "real.go.bak", "real.go.txt", "#real.go#", "notes.gold", "real.go.swp"})
+			files = append(files, tgFile{name: nm, content: "package semantics\n\nfunc testLeftover() bool {\n\treturn true\n}\n"})
+		}
+		// a very long line that holds, at offsets that are multiples of 4096, text looking like the start of a test function: a
+		// reader that hands out long lines in pieces must not take a piece for a line
+		if r.Intn(4) == 0 {
+			var lb strings.Builder
+			lb.WriteString("package semantics\n\nfunc testBeforeLong() bool {\n\treturn true\n}\n\n")
+			// (both alignments: multiples of 4096 counted from the start of the line, and from the start of the file)
+			lineStart := lb.Len()
+			lb.WriteString("var long = \"")
+			rel := r.Intn(2) == 0
+			for (rel && (lb.Len()-lineStart)%4096 != 0) || (!rel && lb.Len()%4096 != 0) {
+				lb.WriteByte('x')
+			}
+			for k := 0; k < 3; k++ {
+				piece := "func testGhost" + fmt.Sprint(k) + "() bool {"
+				lb.WriteString(piece)
+				for n := len(piece); n < 4096; n++ {
+					lb.WriteByte('y')
+				}
+			}
+			lb.WriteString("\"\n\nfunc testAfterLong() bool {\n\treturn len(long) > 0\n}\n")
+			files = append(files, tgFile{name: "longline.go", content: lb.String()})
+		}
 		// … and files that build constraints keep out of the package: never compiled, compiled on another system only, or
 		// part of only one of the two views of the package (goose translates with the tag `goose`, `go test` runs without it)
 		if r.Intn(4) == 0 {
